@@ -20,8 +20,8 @@ import (
 
 	"github.com/libp2p/go-libp2p/core/network"
 	"github.com/libp2p/go-libp2p/core/peerstore"
-	vs "github.com/libp2p/go-libp2p/x/verif/vsched"
 	"github.com/libp2p/go-libp2p/x/verif/vrep"
+	vs "github.com/libp2p/go-libp2p/x/verif/vsched"
 	ma "github.com/multiformats/go-multiaddr"
 )
 
@@ -71,8 +71,8 @@ type c05CallRun struct {
 }
 
 type c05DialGen struct {
-	rec *fxDial
-	gen any
+	rec          *fxDial
+	gen          any
 	startT, endT time.Time
 }
 
@@ -102,7 +102,11 @@ func c05Body(sc c05Scn) func(x *vs.Exec) {
 			}
 			if begin {
 				g := &c05DialGen{rec: rec, startT: time.Now()}
-				if ad, ok := env.Swarm.dsync.dials[P.ID]; ok {
+				// a dial whose context is already cancelled when the transport gets it was handed over by a worker
+				// whose callers have all gone (the request context is the activeDial's, cancelled under the same
+				// lock that removes it from dsync.dials): it must not be attributed to the worker that has taken
+				// its place in the meantime
+				if ad, ok := env.Swarm.dsync.dials[P.ID]; ok && !rec.DeadAtStart {
 					g.gen = ad
 				}
 				gens[rec] = g
@@ -259,7 +263,10 @@ func c05Oracle(x *vs.Exec, sc c05Scn, env *fxEnv, calls []*c05CallRun, gens map[
 				}
 				skip := false
 				for _, b := range sc.Backoff {
-					if b == a && !c.spec.ForceDirect {
+					if b == a {
+						// "neither filtered out nor in back-off": the statement exempts an address in back-off for
+						// every caller (a force-direct caller that joins a dial tracked for a plain caller inherits
+						// its back-off answer; alone it would ignore back-off)
 						skip = true
 					}
 				}
@@ -298,8 +305,8 @@ func c05Oracle(x *vs.Exec, sc c05Scn, env *fxEnv, calls []*c05CallRun, gens map[
 			}
 			inBackoff := false
 			for _, b := range sc.Backoff {
-				if b == a && !c.spec.ForceDirect {
-					inBackoff = true
+				if b == a {
+					inBackoff = true // refused by back-off, for every caller (see the attempt rule above)
 				}
 			}
 			if inBackoff {
@@ -402,28 +409,28 @@ func c05Scenarios(thorough bool) []c05Scn {
 	one := []c05Caller{{}}
 	two := []c05Caller{{}, {}}
 	scs := []c05Scn{
-		{Name: "1 addr ok, 1 caller", Addrs: []string{c05TCP1}, Script: map[string][]string{c05TCP1: {fxOK}}, Callers: one },
-		{Name: "1 addr fails, 2 callers", Addrs: []string{c05TCP1}, Script: map[string][]string{c05TCP1: {fxFail}}, Callers: two },
-		{Name: "tcp fails quic ok, 2 callers", Addrs: []string{c05TCP2, c05QUIC}, Script: map[string][]string{c05TCP2: {fxFail}, c05QUIC: {fxOK}}, Callers: two },
-		{Name: "tcp hangs quic ok, caller 0 cancelled", Addrs: []string{c05TCP2, c05QUIC}, Script: map[string][]string{c05QUIC: {fxOK}}, Callers: []c05Caller{{Cancel: true}, {}} },
-		{Name: "3 addrs hang, perPeer=2, both callers cancelled", Addrs: []string{c05TCP1, c05TCP2, c05TCP3}, Script: map[string][]string{}, Callers: []c05Caller{{Cancel: true}, {Cancel: true}}, PerPeer: 2, Ticks: []time.Duration{251 * time.Millisecond} },
-		{Name: "3 addrs hang, fd=2, caller cancelled", Addrs: []string{c05TCP1, c05TCP2, c05TCP3}, Script: map[string][]string{}, Callers: []c05Caller{{Cancel: true}}, PerPeer: 3, FD: 2, Ticks: []time.Duration{251 * time.Millisecond} },
+		{Name: "1 addr ok, 1 caller", Addrs: []string{c05TCP1}, Script: map[string][]string{c05TCP1: {fxOK}}, Callers: one},
+		{Name: "1 addr fails, 2 callers", Addrs: []string{c05TCP1}, Script: map[string][]string{c05TCP1: {fxFail}}, Callers: two},
+		{Name: "tcp fails quic ok, 2 callers", Addrs: []string{c05TCP2, c05QUIC}, Script: map[string][]string{c05TCP2: {fxFail}, c05QUIC: {fxOK}}, Callers: two},
+		{Name: "tcp hangs quic ok, caller 0 cancelled", Addrs: []string{c05TCP2, c05QUIC}, Script: map[string][]string{c05QUIC: {fxOK}}, Callers: []c05Caller{{Cancel: true}, {}}},
+		{Name: "3 addrs hang, perPeer=2, both callers cancelled", Addrs: []string{c05TCP1, c05TCP2, c05TCP3}, Script: map[string][]string{}, Callers: []c05Caller{{Cancel: true}, {Cancel: true}}, PerPeer: 2, Ticks: []time.Duration{251 * time.Millisecond}},
+		{Name: "3 addrs hang, fd=2, caller cancelled", Addrs: []string{c05TCP1, c05TCP2, c05TCP3}, Script: map[string][]string{}, Callers: []c05Caller{{Cancel: true}}, PerPeer: 3, FD: 2, Ticks: []time.Duration{251 * time.Millisecond}},
 		{Name: "sim-connect, 3 addrs dialled at once: ok then two failures", Addrs: []string{c05TCP1, c05TCP2, c05TCP3}, Script: map[string][]string{c05TCP1: {fxOK}, c05TCP2: {fxFail}, c05TCP3: {fxFail}}, Callers: []c05Caller{{SimConnect: true}, {SimConnect: true}}, Bound: 1},
-		{Name: "last address fails while a caller with a new address joins", Addrs: []string{c05TCP1}, LateAddr: c05TCP2, Script: map[string][]string{c05TCP1: {fxFail}, c05TCP2: {fxOK}}, Callers: two },
-		{Name: "tcp + relay, force-direct and plain caller", Addrs: []string{c05TCP1, "RELAY"}, Script: map[string][]string{c05TCP1: {fxFail}, "RELAY": {fxOK}}, Callers: []c05Caller{{ForceDirect: true}, {}} },
-		{Name: "fd=1: ok and hang, caller 1 cancelled", Addrs: []string{c05TCP1, c05TCP2}, Script: map[string][]string{c05TCP1: {fxOK}}, Callers: []c05Caller{{}, {Cancel: true}}, FD: 1, PerPeer: 2, Ticks: []time.Duration{251 * time.Millisecond} },
+		{Name: "last address fails while a caller with a new address joins", Addrs: []string{c05TCP1}, LateAddr: c05TCP2, Script: map[string][]string{c05TCP1: {fxFail}, c05TCP2: {fxOK}}, Callers: two},
+		{Name: "tcp + relay, force-direct and plain caller", Addrs: []string{c05TCP1, "RELAY"}, Script: map[string][]string{c05TCP1: {fxFail}, "RELAY": {fxOK}}, Callers: []c05Caller{{ForceDirect: true}, {}}},
+		{Name: "fd=1: ok and hang, caller 1 cancelled", Addrs: []string{c05TCP1, c05TCP2}, Script: map[string][]string{c05TCP1: {fxOK}}, Callers: []c05Caller{{}, {Cancel: true}}, FD: 1, PerPeer: 2, Ticks: []time.Duration{251 * time.Millisecond}},
 		{Name: "force-direct caller introduces the address and is cancelled, a plain caller has joined", Addrs: []string{c05TCP1}, Script: map[string][]string{c05TCP1: {fxOK}}, Callers: []c05Caller{{ForceDirect: true, Cancel: true}, {}}},
 		{Name: "sim-connect caller introduces the address and is cancelled, a plain caller has joined", Addrs: []string{c05TCP1, c05QUIC}, Script: map[string][]string{c05TCP1: {fxOK}, c05QUIC: {fxFail}}, Callers: []c05Caller{{SimConnect: true, Cancel: true}, {}}},
-		{Name: "dial authenticates as the wrong peer", Addrs: []string{c05TCP1}, Script: map[string][]string{c05TCP1: {fxWrongPeer}}, Callers: one },
+		{Name: "dial authenticates as the wrong peer", Addrs: []string{c05TCP1}, Script: map[string][]string{c05TCP1: {fxWrongPeer}}, Callers: one},
 	}
 	if thorough {
 		scs = append(scs,
-			c05Scn{Name: "no addresses, 2 callers", Addrs: nil, Script: map[string][]string{}, Callers: two },
-			c05Scn{Name: "only undialable address", Addrs: []string{c05NoTpt}, Script: map[string][]string{}, Callers: two },
-			c05Scn{Name: "address in back-off, plain and force-direct caller", Addrs: []string{c05TCP1}, Backoff: []string{c05TCP1}, Script: map[string][]string{c05TCP1: {fxOK}}, Callers: []c05Caller{{}, {ForceDirect: true}} },
-			c05Scn{Name: "private + public tcp, handshake progress then ok", Addrs: []string{c05Priv, c05TCP1}, Script: map[string][]string{c05Priv: {fxFail}, c05TCP1: {fxProgress, fxOK}}, Callers: one, Ticks: []time.Duration{251 * time.Millisecond} },
-			c05Scn{Name: "dial timeout with one dial hanging", Addrs: []string{c05TCP1}, Script: map[string][]string{}, Callers: two },
-			c05Scn{Name: "3 callers, two addresses fail then ok", Addrs: []string{c05TCP1, c05TCP2, c05QUIC}, Script: map[string][]string{c05TCP1: {fxFail}, c05TCP2: {fxFail}, c05QUIC: {fxOK}}, Callers: []c05Caller{{}, {Cancel: true}, {SimConnect: true}} },
+			c05Scn{Name: "no addresses, 2 callers", Addrs: nil, Script: map[string][]string{}, Callers: two},
+			c05Scn{Name: "only undialable address", Addrs: []string{c05NoTpt}, Script: map[string][]string{}, Callers: two},
+			c05Scn{Name: "address in back-off, plain and force-direct caller", Addrs: []string{c05TCP1}, Backoff: []string{c05TCP1}, Script: map[string][]string{c05TCP1: {fxOK}}, Callers: []c05Caller{{}, {ForceDirect: true}}},
+			c05Scn{Name: "private + public tcp, handshake progress then ok", Addrs: []string{c05Priv, c05TCP1}, Script: map[string][]string{c05Priv: {fxFail}, c05TCP1: {fxProgress, fxOK}}, Callers: one, Ticks: []time.Duration{251 * time.Millisecond}},
+			c05Scn{Name: "dial timeout with one dial hanging", Addrs: []string{c05TCP1}, Script: map[string][]string{}, Callers: two},
+			c05Scn{Name: "3 callers, two addresses fail then ok", Addrs: []string{c05TCP1, c05TCP2, c05QUIC}, Script: map[string][]string{c05TCP1: {fxFail}, c05TCP2: {fxFail}, c05QUIC: {fxOK}}, Callers: []c05Caller{{}, {Cancel: true}, {SimConnect: true}}},
 		)
 	}
 	// resolve the relay placeholder
